@@ -68,7 +68,7 @@ func VerifC10ConfigVars() {
 	rt.Redirect("(*github.com/taskctl/taskctl/internal/config.Loader).load", c10Load)
 	rt.Redirect("(*github.com/taskctl/taskctl/internal/config.Loader).decode", c10Decode)
 	rt.Redirect("github.com/imdario/mergo.Merge", c10MergoModel)
-	v := rt.OneOf("config.X", "a", "m", "z")
+	v := rt.OneOf("config.X", "a", "m", "z", "")
 	c10Def = &configDefinition{
 		Variables: map[string]string{"X": v},
 		Tasks:     map[string]*taskDefinition{"t1": {Command: []string{"echo {{.X}}"}}},
